@@ -31,6 +31,9 @@ enum Fault {
     EdgeOnNonNode,
     FormatArity,
     TypeErrorViaLet,
+    ScanNonString,
+    IfNonBoolean,
+    ForNonList,
 }
 
 const FAULTS: &[Fault] = &[
@@ -42,6 +45,9 @@ const FAULTS: &[Fault] = &[
     Fault::EdgeOnNonNode,
     Fault::FormatArity,
     Fault::TypeErrorViaLet,
+    Fault::ScanNonString,
+    Fault::IfNonBoolean,
+    Fault::ForNonList,
 ];
 
 impl Fault {
@@ -55,6 +61,9 @@ impl Fault {
             Fault::EdgeOnNonNode => "edge_on_non_node",
             Fault::FormatArity => "format_arity",
             Fault::TypeErrorViaLet => "type_error_via_let",
+            Fault::ScanNonString => "scan_non_string",
+            Fault::IfNonBoolean => "if_non_boolean",
+            Fault::ForNonList => "for_non_list",
         }
     }
     /// conflicts between two statements
@@ -86,6 +95,10 @@ fn fault_stmts(f: Fault, cap: Option<&str>) -> Option<Vec<GStmt>> {
         Fault::UndefinedEdge => vec![stmt(StmtKind::Node(GVar::u("zq_n"))), stmt(StmtKind::Node(GVar::u("zq_m"))), stmt(StmtKind::AttrEdge(n(), GExpr::var("zq_m"), vec![a("zq_a", GExpr::Int(1))]))],
         Fault::EdgeOnNonNode => vec![stmt(StmtKind::Node(GVar::u("zq_n"))), stmt(StmtKind::Edge(n(), GExpr::str("not a node")))],
         Fault::FormatArity => vec![stmt(StmtKind::Node(GVar::u("zq_n"))), stmt(StmtKind::AttrNode(n(), vec![a("zq_a", GExpr::call("format", vec![GExpr::str("{} {}"), GExpr::Int(1)]))]))],
+        // eagerly evaluated positions: in lazy mode these fail while matches are collected
+        Fault::ScanNonString => vec![stmt(StmtKind::Scan(GExpr::call("plus", vec![GExpr::Int(424242), GExpr::Int(1)]), vec![GArm { regex: "a".into(), stmts: vec![], loc: Loc::default() }]))],
+        Fault::IfNonBoolean => vec![stmt(StmtKind::If(vec![GIfArm { conds: vec![GCond { kind: CondKind::Bool, expr: GExpr::call("plus", vec![GExpr::Int(424242), GExpr::Int(1)]), loc: Loc::default() }], stmts: vec![], loc: Loc::default() }]))],
+        Fault::ForNonList => vec![stmt(StmtKind::Let(GVar::u("zq_l"), GExpr::List(vec![GExpr::Int(1)]))), stmt(StmtKind::For(GUVar::new("zq_x"), GExpr::Set(vec![GExpr::var("zq_l")]), vec![]))],
         Fault::TypeErrorViaLet => vec![stmt(StmtKind::Node(GVar::u("zq_n"))), stmt(StmtKind::Let(GVar::u("zq_v"), GExpr::call("not", vec![GExpr::Int(3)]))), stmt(StmtKind::AttrNode(n(), vec![a("zq_a", GExpr::var("zq_v"))]))],
     })
 }
@@ -106,6 +119,7 @@ fn is_marker(s: &GStmt) -> bool {
             GExpr::Var(GVar::Unscoped(u)) => u.name.starts_with("zq_"),
             GExpr::Var(GVar::Scoped(b, n, _)) => n.starts_with("zq_") || e(b),
             GExpr::Call(f, args) => f.starts_with("zq-") || args.iter().any(e),
+            GExpr::Int(424242) => true,
             GExpr::List(xs) | GExpr::Set(xs) => xs.iter().any(e),
             _ => false,
         }
@@ -120,6 +134,9 @@ fn is_marker(s: &GStmt) -> bool {
         StmtKind::Edge(x, y) => e(x) || e(y),
         StmtKind::AttrNode(x, attrs) => e(x) || attrs.iter().any(|at| at.name.starts_with("zq_")),
         StmtKind::AttrEdge(x, y, attrs) => e(x) || e(y) || attrs.iter().any(|at| at.name.starts_with("zq_")),
+        StmtKind::Scan(x, _) => e(x),
+        StmtKind::If(arms) => arms.iter().any(|a| a.conds.iter().any(|c| e(&c.expr))),
+        StmtKind::For(v, x, _) => v.name.starts_with("zq_") || e(x),
         _ => false,
     }
 }
